@@ -69,6 +69,9 @@ func main() {
 	if wiringMode(os.Args) { // complit / callargs / retconds: see wiring.go
 		return
 	}
+	if logsitesMode(os.Args) { // logsites: see logsites.go (C14)
+		return
+	}
 	fset := token.NewFileSet()
 	conf := types.Config{Importer: importer.ForCompiler(fset, "source", nil), Error: func(error) {}}
 	switch os.Args[1] {
